@@ -221,6 +221,15 @@ fn alloc_val<T: Pat, const M: usize>(b: &Bump<M>, rng: &mut Rng, how: u64) -> (S
 }
 
 /// slice flavours over element type T
+/// an ExactSizeIterator that yields more items than its len() promises
+struct Oversupply<'a, T: Copy> { items: &'a [T], pos: usize, promised: usize }
+impl<'a, T: Copy> Iterator for Oversupply<'a, T> {
+    type Item = T;
+    fn next(&mut self) -> Option<T> { let r = self.items.get(self.pos).copied(); self.pos += 1; r }
+    fn size_hint(&self) -> (usize, Option<usize>) { (self.promised.saturating_sub(self.pos.min(self.promised)), Some(self.promised.saturating_sub(self.pos.min(self.promised)))) }
+}
+impl<'a, T: Copy> ExactSizeIterator for Oversupply<'a, T> {}
+
 fn alloc_slice<T: Pat + Default, const M: usize>(b: &Bump<M>, rng: &mut Rng, how: u64, n: usize) -> (String, Layout, AllocOut, bool) {
     let es = std::mem::size_of::<T>();
     let lay = Layout::array::<T>(n).unwrap();
@@ -249,6 +258,12 @@ fn alloc_slice<T: Pat + Default, const M: usize>(b: &Bump<M>, rng: &mut Rng, how
     };
     let src: Vec<T> = (0..n).map(|i| T::from_bytes(&bytes[i * es..])).collect();
     let mut calls: Vec<usize> = Vec::with_capacity(n + 1);
+    let oversupply = if (how == 6 || how == 7) && rng.chance(1, 3) { 1 + rng.usize_below(9) } else { 0 };
+    let mut returned_len = n;
+    // (built before the tracked region: the harness's own allocations must not enter the request log)
+    let mut over_items: Vec<T> = src.clone();
+    let filler = T::from_bytes(&vec![0xEEu8; es]);
+    for i in 0..oversupply { over_items.push(if n > 0 { src[i % n] } else { filler }); }
     let r = guarded(|| -> Result<usize, ()> {
         let p = match how {
             0 => b.alloc_slice_copy(&src[..]).as_mut_ptr(),
@@ -257,6 +272,13 @@ fn alloc_slice<T: Pat + Default, const M: usize>(b: &Bump<M>, rng: &mut Rng, how
             3 => b.try_alloc_slice_clone(&src[..]).map_err(|_| ())?.as_mut_ptr(),
             4 => b.alloc_slice_fill_with(n, |i| { track::paused(|| calls.push(i)); src[i] }).as_mut_ptr(),
             5 => b.try_alloc_slice_fill_with(n, |i| { track::paused(|| calls.push(i)); src[i] }).map_err(|_| ())?.as_mut_ptr(),
+            6 | 7 if oversupply > 0 => {
+                // the iterator promises n items and has more: exactly n are taken, the block is n long
+                let it = Oversupply { items: &over_items[..], pos: 0, promised: n };
+                let sl = if how == 6 { b.alloc_slice_fill_iter(it) } else { b.try_alloc_slice_fill_iter(it).map_err(|_| ())? };
+                returned_len = sl.len();
+                sl.as_mut_ptr()
+            }
             6 => b.alloc_slice_fill_iter(src.iter().copied()).as_mut_ptr(),
             7 => b.try_alloc_slice_fill_iter(src.iter().copied()).map_err(|_| ())?.as_mut_ptr(),
             8 => b.alloc_slice_fill_copy(n, if n > 0 { src[0] } else { T::from_bytes(&vec![0u8; es]) }).as_mut_ptr(),
@@ -272,6 +294,9 @@ fn alloc_slice<T: Pat + Default, const M: usize>(b: &Bump<M>, rng: &mut Rng, how
         Ok(Ok(a)) => {
             if how == 4 || how == 5 {
                 order_ok = calls.iter().copied().eq(0..n);
+            }
+            if returned_len != n {
+                println!("K slice length {} claims more than the {} elements reserved ({})", returned_len, n, name);
             }
             Ok((a, lay.size(), lay.align(), bytes))
         }
@@ -1651,12 +1676,20 @@ fn iso(seed: u64, count: u64, first: u64) {
 fn ctor_tests() {
     fn one<const M: usize>() {
         let c = bumpalo::verif_hooks::consts();
-        for (how, cap) in [(0usize, 0usize), (1, 0), (1, 100), (2, 0), (2, 100)] {
+        for (how, cap) in [(0usize, 0usize), (1, 0), (1, 100), (2, 0), (2, 100), (3, 0), (4, 0)] {
             track::reset_log();
             let r = guarded(|| match how {
                 0 => drop(Bump::<M>::with_min_align()),
                 1 => drop(Bump::<M>::with_min_align_and_capacity(cap)),
-                _ => drop(Bump::<M>::try_with_min_align_and_capacity(cap)),
+                2 => drop(Bump::<M>::try_with_min_align_and_capacity(cap)),
+                // the Default impl, directly and through mem::take on a holder that derives Default
+                3 => drop(<Bump<M> as Default>::default()),
+                _ => {
+                    #[derive(Default)]
+                    struct Holder<const N: usize> { arena: Bump<N>, _n: u32 }
+                    let h: Holder<M> = Default::default();
+                    drop(h.arena)
+                }
             });
             let reqs = track::events(0, track::log_len()).iter().filter(|e| e.kind == Kind::Alloc).count();
             let res = match r { Ok(()) => "ok".to_string(), Err(p) => p.show() };
